@@ -46,8 +46,16 @@ def run(chk):
     e8.check_flow(chk, "FF1", O.methods["to_tensor"], ["self"], "dense tensor")
     e8.check_flow(chk, "FF1", prog.cls(OBC, "MpoPBC").methods["to_tensor"], ["self"], "dense tensor")
     nf = O.methods["norm"]
-    cps = [A.text(n.targets[0]) for n in A.walk_local(nf.node) if isinstance(n, ast.Assign) and isinstance(n.value, ast.Call)
-           and A.text(n.value.func) == f"{nf.params[0]}.shallow_copy"]
+    def rooted_in_shallow_copy(v, me_):
+        """`me.shallow_copy()` possibly followed by a chain of in-place method calls (which return the object they act on)"""
+        while isinstance(v, ast.Call) and isinstance(v.func, ast.Attribute):
+            if A.text(v.func) == f"{me_}.shallow_copy":
+                return True
+            if not (v.func.attr.endswith("_") and not v.func.attr.endswith("__")):
+                return False
+            v = v.func.value
+        return False
+    cps = [A.text(n.targets[0]) for n in A.walk_local(nf.node) if isinstance(n, ast.Assign) and rooted_in_shallow_copy(n.value, nf.params[0])]
     chk.require(cps, "MpsMpoOBC.norm: shallow copy of the receiver not found")
     e8.check_flow(chk, "FF1", nf, [cps[0]], "returned norm")
     # functions built on a shallow copy keep the factor: they must start from a copy and never overwrite .factor with
